@@ -226,8 +226,15 @@ class WAUROC(_Win):
     def window(self, cfg):
         return cfg["max_num_samples"]
 
+    DEN = 8                                            # scores live on the grid k/8 (Curves kernel: integer scores)
+
     def cfg_val(self, cfg):
-        return [cfg["num_tasks"], cfg["max_num_samples"]]
+        return [cfg["num_tasks"], cfg["max_num_samples"], self.DEN]
+
+    def batch_val(self, cfg, b):
+        xs = [[int(x * self.DEN) for x in r] for r in b["x"]]
+        assert all(F(z, self.DEN) == x for r, rz in zip(b["x"], xs) for x, z in zip(r, rz))
+        return [xs, [[int(y) for y in r] for r in b["y"]], b["w"]]
 
     def gen_batch(self, rng, cfg, n):
         T, N = cfg["num_tasks"], cfg["max_num_samples"]
